@@ -128,3 +128,33 @@ Fixpoint proj (r : res) : res :=
   | RMerge _ => RMerge None
   | _ => r
   end.
+
+(* ---- what recovery computes, at specification level -------------------------------------- *)
+(* one record applied to the map: a tombstone deletes, anything else puts *)
+Definition rec_apply (m : smap) (r : record) : smap :=
+  if r_type r =? rt_Deleted then fst (amap_del m (r_key r)) else fst (amap_put m (r_key r) (r_value r)).
+Definition s_apply_recs (m : smap) (rs : list record) : smap := fold_left rec_apply rs m.
+
+(* pending batches: batch id -> its records seen so far, in log order *)
+Definition stx := list (N * list record).
+Fixpoint stx_get (t : stx) (id : N) : list record :=
+  match t with [] => [] | (i, l) :: r => if i =? id then l else stx_get r id end.
+Fixpoint stx_add (t : stx) (id : N) (e : record) : stx :=
+  match t with
+  | [] => [(id, [e])]
+  | (i, l) :: r => if i =? id then (i, l ++ [e]) :: r else (i, l) :: stx_add r id e
+  end.
+Fixpoint stx_del (t : stx) (id : N) : stx :=
+  match t with [] => [] | (i, l) :: r => if i =? id then r else (i, l) :: stx_del r id end.
+
+(* replaying a log: plain records apply at once, tagged records wait for the batch-finished
+   record with their id, which applies them in order *)
+Fixpoint sreplay (m : smap) (t : stx) (rs : list record) : smap * stx :=
+  match rs with
+  | [] => (m, t)
+  | r :: rest =>
+    if r_batch r =? 0 then sreplay (rec_apply m r) t rest
+    else if r_type r =? rt_BatchFinished
+         then sreplay (s_apply_recs m (stx_get t (r_batch r))) (stx_del t (r_batch r)) rest
+         else sreplay m (stx_add t (r_batch r) r) rest
+  end.
